@@ -414,4 +414,46 @@ pub mod verif_hooks {
     pub fn progress_bar(counts: &StateCounts, bar_size: usize) -> String {
         super::progress_bar(counts, bar_size)
     }
+
+    /// One frame of the fancy display, produced by the real `FancyState` (`update`,
+    /// `task_started`, `task_output`, `print_progress`) with the terminal replaced by
+    /// `crate::verif::capture_frame`.  Each task: its build, for how many seconds it has been
+    /// running, the output lines reported so far.  Returns the bytes written for the frame
+    /// and, per task, the age in seconds that could actually be arranged.
+    pub fn render_frame(
+        counts: &StateCounts,
+        tasks: &[(&crate::graph::Build, u64, Vec<Vec<u8>>)],
+        cols: Option<usize>,
+    ) -> (Vec<u8>, Vec<u64>) {
+        use crate::graph::BuildId;
+        use std::sync::{Arc, Condvar};
+        let mut state = super::FancyState {
+            done: false,
+            pending: Vec::new(),
+            dirty: false,
+            dirty_cond: Arc::new(Condvar::new()),
+            counts: StateCounts::default(),
+            tasks: std::collections::VecDeque::new(),
+            verbose: false,
+        };
+        state.update(counts);
+        let mut ages = Vec::new();
+        for (i, (build, secs, lines)) in tasks.iter().enumerate() {
+            let id = BuildId::from(i);
+            state.task_started(id, build);
+            let task = state.tasks.back_mut().unwrap();
+            match task.start.checked_sub(std::time::Duration::from_secs(*secs)) {
+                Some(t) => {
+                    task.start = t;
+                    ages.push(*secs);
+                }
+                None => ages.push(0),
+            }
+            for line in lines {
+                state.task_output(id, line.clone());
+            }
+        }
+        let out = crate::verif::capture_frame(cols, || state.print_progress());
+        (out, ages)
+    }
 }
